@@ -300,9 +300,15 @@ class Client(object):
     def serviceConnect(self):
         """
         Service connection attempt
+        If cut off and reconnectable reopen once timed out
         If not already connected make a nonblocking attempt
         Returns .connected
         """
+        if self.cutoff and self.reconnectable:  # lost connection
+            if self.timeout > 0.0 and self.timer.expired:  # timed out
+                self.reopen()
+                self.timer.restart()
+
         if not self.connected:
             self.connect()
 
